@@ -108,7 +108,14 @@ else:
     raise SystemExit('unknown mutant')
 PY
   (cd $d && diff -ru /repo/include include > $OUT/$1.diff)
+  # a mutant run must leave nothing behind that describes or disturbs runs against /repo itself: the evidence file is restored,
+  # the replays it wrote are moved next to its log
+  cp /verif/evidence/C19.json $OUT/.evidence.bak 2>/dev/null
+  ls /verif/replays/C19-*.json 2>/dev/null | sort > $OUT/.replays.before
   (cd /verif && VERIF_REPO=$d timeout 900 ./check C19 ${2:-} > $OUT/$1.log 2>&1; echo "exit=$?" >> $OUT/$1.log)
+  cp $OUT/.evidence.bak /verif/evidence/C19.json 2>/dev/null
+  mkdir -p $OUT/$1.replays
+  for f in $(ls /verif/replays/C19-*.json 2>/dev/null | sort | comm -13 $OUT/.replays.before -); do mv $f $OUT/$1.replays/; done
   rm -rf $d
 }
 for m in "$@"; do apply $m; echo "== $m"; grep -E "BROKEN|VIOLATION|exit=|done:" $OUT/$m.log; done
